@@ -436,6 +436,42 @@ fn eval_npy_input(shape: &[usize], descr: &str, version: u8, scratch: &Scratch) 
     ))
 }
 
+/// Degenerate spectra through the binary: a single site (every basis spectrum with one entry 1, so
+/// that the total is exactly one) and no site at all (all zeros). Every admissible statistic must
+/// print the reference value; where the definition divides zero by zero that is NaN.
+fn eval_degenerate(shape: &[usize], site: Option<usize>, scratch: &Scratch) -> Vec<Viol> {
+    let x = match site {
+        Some(i) => basis(shape, i, 1.0),
+        None => RefArray::zeros(shape),
+    };
+    let stats = stats_for_dim(shape);
+    let list = stats.join(",");
+    let input = text_of(&x);
+    let o = run_sfs(&["stat", "-s", &list, "--precision", "12"], Stdin::Bytes(input.as_bytes()), scratch);
+    let what = match site { Some(i) => format!("one site in entry {i}"), None => "no site".to_string() };
+    let case = J::obj([("kind", J::s("c06-degenerate")), ("shape", J::usizes(shape)), ("site", site.map_or(J::Null, J::u))]);
+    if !o.ok() {
+        return vec![(format!("C06|cli|degenerate-stat-failed|{}", shape_class(shape)), format!("shape {shape:?}, {what}: sfs stat -s {list}: {} {}", o.status_str(), o.stderr_str().trim()), case)];
+    }
+    let vals: Vec<f64> = o.stdout_str().trim().split(',').map(|t| t.parse::<f64>().unwrap_or(f64::NAN)).collect();
+    if vals.len() != stats.len() {
+        return vec![("C06|cli|stat-output-malformed".into(), format!("shape {shape:?}, {what}: {:?}", o.stdout_str()), case)];
+    }
+    let mut viols = Vec::new();
+    for (st, v) in stats.iter().zip(&vals) {
+        let e = ref_stat(st, &x);
+        let ok = (v.is_nan() && e.is_nan()) || (v.is_infinite() && e.is_infinite() && v.signum() == e.signum()) || (v - e).abs() <= 0.6e-12 + 1e-9 * e.abs();
+        if !ok {
+            viols.push((
+                format!("C06|cli|{st}-wrong-on-degenerate-spectrum|{}", if site.is_some() { "one-site" } else { "no-site" }),
+                format!("shape {shape:?}, {what}: `sfs stat -s {list}` reports {st} = {v}, the definition gives {e:e}"),
+                case.clone(),
+            ));
+        }
+    }
+    viols
+}
+
 /// The spectra of the report-format grid.
 fn format_spectrum(which: usize) -> RefArray {
     match which {
@@ -865,6 +901,30 @@ pub fn run(tier: Tier) -> i32 {
             extra: vec![],
         });
     }
+    {
+        let mut dj: Vec<(Vec<usize>, Option<usize>)> = Vec::new();
+        for shape in [vec![3usize], vec![4], vec![5], vec![8], vec![3, 3], vec![3, 5], vec![2, 2], vec![3, 3, 3], vec![3, 3, 3, 3]] {
+            let cells: usize = shape.iter().product();
+            dj.push((shape.clone(), None));
+            if cells <= 27 {
+                for i in 0..cells {
+                    dj.push((shape.clone(), Some(i)));
+                }
+            }
+        }
+        let res = par_map(dj.len(), |i| eval_degenerate(&dj[i].0, dj[i].1, &scratch));
+        for v in res.into_iter().flatten() {
+            rep.violation(v.0, v.1, v.2);
+        }
+        rep.part(Part {
+            name: "cli: spectra of one site and of no site".into(),
+            evaluations: dj.len() as u64,
+            nontrivial: dj.len() as u64,
+            note: "shapes with 1..4 axes: the all-zero spectrum, and for the shapes of at most 27 entries every spectrum holding exactly one site (total exactly one) x every admissible statistic through `sfs stat`: the reference value (NaN where the definition divides zero by zero)".into(),
+            exhaustive: true,
+            extra: vec![],
+        });
+    }
     rep.sample(J::obj([
         ("population_sizes", J::usizes(&[1, 3])),
         ("argv", J::s("sfs create -s s0=p0,s1=p1,s2=p1,s3=p1 | sfs stat -s f2,fst,pi-xy,s,sum --precision 12 -H")),
@@ -884,6 +944,11 @@ pub fn run(tier: Tier) -> i32 {
 
 pub fn replay(case: &J) -> Option<Vec<String>> {
     match case.get("kind")?.as_str()? {
+        "c06-degenerate" => {
+            let scratch = Scratch::new("c06r");
+            let site = case.get("site").and_then(|x| x.as_i64()).map(|x| x as usize);
+            Some(eval_degenerate(&case.get("shape")?.as_usizes()?, site, &scratch).into_iter().map(|(k, w, _)| format!("{k} :: {w}")).collect())
+        }
         "c06-npy-input" => {
             let scratch = Scratch::new("c06r");
             let descr: &'static str = ["<f8", ">f8", "<f4", ">f4", "|u1", "|i1", "<u2", ">u2", "<i2", ">i2", "<u4", ">u4", "<i4", ">i4", "<u8", ">u8", "<i8", ">i8"].into_iter().find(|d| Some(*d) == case.get("descr").and_then(|x| x.as_str()))?;
